@@ -569,6 +569,7 @@ func (fe *FuncEnc) step(f *Frame, in ssa.Instruction, st *State, path Term) {
 		fe.cellCheck(f, a, v, st, path, x.Pos())
 		fe.store(st, a, v)
 	case *ssa.MakeInterface:
+		fe.publishCheck(f, x, st, path)
 		fe.setVal(x, fe.toVal(fe.val(x.X), x.X.Type()))
 	case *ssa.ChangeInterface:
 		fe.setVal(x, fe.val(x.X))
@@ -582,6 +583,7 @@ func (fe *FuncEnc) step(f *Frame, in ssa.Instruction, st *State, path Term) {
 		if x.CommaOk {
 			payload := tIte(test, fe.fromVal(v, x.AssertedType), so.zero(x.AssertedType))
 			f.tuples[x] = []Term{fe.define(x.Name()+"v", payload), test}
+			fe.typeInvAssume(f, f.tuples[x][0], x.AssertedType, tAnd(path, test), st)
 		} else {
 			fe.emit("safety.assert", fe.srcLabel(x.Pos(), "assert"), path, test, "type assertion holds", x.Pos())
 			fe.setVal(x, fe.fromVal(v, x.AssertedType))
